@@ -157,7 +157,9 @@ def reqJudge (f : List String) (out : String) : String :=
   | some c =>
     match parseObservedReq c out with
     | none => "bad:unparsable:" ++ out
-    | some o => verdictReq specHop (mkRepl c.r.host c.r.remoteAddr) c.u c.r o
+    | some o =>
+      let v := verdictReq specHop (mkRepl c.r.host c.r.remoteAddr) c.u c.r o
+      if v != "ok" then v else verdictRawPath c.u c.r o
 
 /-
   c04.retry  (the 18 fields of c04.req) target2Parts target2String cred2
@@ -235,18 +237,32 @@ def respJudge (f : List String) (out : String) : String :=
 
 /-
   c04.wire  method path rawpath query bodyLen bodySeed chunk upstream status respLen respSeed respChunked announced unannounced
-     out = method path-at-backend query-at-backend request-body status response-body trailers
+     out = method path-at-backend query-at-backend request-body request-framing status response-body trailers
   The model's part is the path (Director of upstream block A or B); everything else must arrive unchanged.
 -/
+def showFraming : Framing → String
+  | .none => "cl=0"
+  | .length n => s!"cl={n}"
+  | .chunked => "chunked"
+
 def wireExpected (f : List String) : Option String :=
   match f with
-  | [m, p, _rp, q, _bl, _bs, _ch, ups, st, _rl, _rs, _rc, ann, unann] => do
+  | [m, p, _rp, q, bl, _bs, ch, ups, st, _rl, _rs, _rc, ann, unann] => do
     let path ← Driver.unhex p
+    let meth ← Driver.unhex m
+    let blen ← bl.toNat?
+    let chunk ← ch.toNat?
     let t : URL := { scheme := sHttp, host := [], path := if ups == "B" then bytes "/base" else [], rawPath := [], opaq := [], rawQuery := [] }
     let wo : Str := if ups == "B" then bytes "/api" else []
-    let o := director t wo { scheme := [], host := [], path := path, rawPath := [], opaq := [], rawQuery := [] }
+    -- the request as net/http hands it to the proxy: chunked coding = unknown length
+    let cl : Int := if chunk != 0 then -1 else (blen : Int)
+    let r : Request := { method := meth, url := { scheme := [], host := [], path := path, rawPath := [], opaq := [], rawQuery := [] },
+                         host := [], remoteAddr := [], header := [], contentLength := cl,
+                         body := if cl == 0 then none else some (bodyToken blen) }
+    let u : Upstream := { target := t, without := wo, upRules := [], downRules := [] }
+    let o := forward hopList id u r
     let tr : Hdr := (← parseHdr ann) ++ (← parseHdr unann)
-    pure ("\t".intercalate [m, Driver.hex o.path, q, "same", st, "same", showHdr tr])
+    pure ("\t".intercalate [m, Driver.hex o.url.path, q, "same", showFraming (wireFraming o), st, "same", showHdr tr])
   | _ => none
 
 def wireModel (f : List String) : String := (wireExpected f).getD "bad-case"
@@ -258,11 +274,12 @@ def wireJudge (f : List String) (out : String) : String :=
     if out == e then "ok"
     else
       match e.splitOn "\t", out.splitOn "\t" with
-      | [m, p, q, b, st, rb, tr], [m', p', q', b', st', rb', tr'] =>
+      | [m, p, q, b, fr, st, rb, tr], [m', p', q', b', fr', st', rb', tr'] =>
         if m != m' then "bad:method:changed on the wire"
         else if p != p' then "bad:path:not base + (path minus without) on the wire"
         else if q != q' then "bad:query:changed on the wire"
         else if b != b' then "bad:body:request body changed on the wire"
+        else if fr != fr' then "bad:framing:the backend was sent a framing that is not the one the body calls for (Content-Length = length, or chunked)"
         else if st != st' then "bad:status:changed on the wire"
         else if rb != rb' then "bad:body:response body changed on the wire"
         else if tr != tr' then "bad:trailer:changed on the wire"
